@@ -154,6 +154,140 @@ def ber_part(run, model, mods, cases, rng, tier):
             run.sample({"type": meta[0][0]["ts"], "der": meta[0][0]["der"][:60], "variant": meta[-1][2].hex()[:80], "choices": (meta[-1][3] or "")[:60]})
 
 
+def uper_part(run, model, mods, cases, rng, tier):
+    """the X.691 reading of the model where the C's own encoder writes something else (a conforming peer sends it)"""
+    bm = by_module(cases)
+    for m in mods:
+        if not m.get("exe"):
+            continue
+        cs = [c for c in bm.get(m["name"], []) if c["uperstd"] not in ("NONE", c["uper"])]
+        if not cs:
+            continue
+        lines = ["dec %s uper %s" % (c["tn"], c["uperstd"]) for c in cs]
+        out = run_mod(run, m, lines, "C03-uper")
+        mlines = []
+        for c in cs:
+            mlines += ["uperdec 1 %s %s" % (c["ts"], c["uperstd"]), "uperdec 0 %s %s" % (c["ts"], c["uperstd"])]
+        rcm, mout, merr = run_lines(model, mlines, timeout=1200)
+        for i, (c, l, o) in enumerate(zip(cs, lines, out)):
+            run.case(l)
+            run.count("uper_std")
+            n = len(c["uperstd"]) // 2
+            exp = "OK %d %s ck=" % (n, c["der"])
+            mstd, mfaith = mout[2 * i], mout[2 * i + 1]
+            replay = {"module": m["text"], "type": c["tn"], "model_type": c["ts"], "value": c["vs"], "command_line": l, "c": o,
+                      "expected": exp, "model_std_decoder": mstd, "model_of_c_decoder": mfaith, "c_own_encoding": c["uper"]}
+            if mstd != "OK %d %s" % (n, c["vs"]):
+                run.violation("model:Uper.uper_dec(std)", dict(replay, what="the X.691 reference decoder does not return the value on the X.691 encoding"), no_input=True)
+            if o.startswith(exp):
+                continue
+            tree = m["trees"][c["tn"]]
+            if C02.has_semi(tree):
+                run.known_finding("C03-uper-semiconstrained-dec", l)
+            elif C02.has_noninvolutive_choice(tree):
+                run.known_finding("C03-uper-choice-order-dec", l)
+            else:
+                run.violation("oracle:uper_complete", dict(replay, what="the C UPER decoder does not return the value on the X.691 encoding"))
+
+
+def oer_part(run, model, mods, cases, rng, tier):
+    bm = by_module(cases)
+    for m in mods:
+        if not m.get("exe"):
+            continue
+        lines, meta = [], []
+        for c in bm.get(m["name"], []):
+            if c["oer"] == "NONE" or len(c["der"]) > 6000:
+                continue
+            tree = m["trees"][c["tn"]]
+            try:
+                val = U.Plan(tree, bytes.fromhex(c["der"])).value()
+            except (ValueError, IndexError):
+                continue
+            canon = U.OerVar(lambda what: (0, False, 0))
+            b0 = canon.enc(tree, val)
+            if b0.hex() != (c["oer"] if c["oer"] != "-" else ""):
+                run.violation("harness:oer-encoder", {"what": "the check's own OER encoder and the model disagree on the canonical encoding", "model_type": c["ts"],
+                                                      "value": c["vs"], "python": b0.hex(), "model": c["oer"]}, no_input=True)
+                continue
+            if canon.nlen + canon.nqty == 0:
+                run.count("oer_no_length_fields")
+                continue
+            picks = [("pad%d" % k, (lambda k: (lambda what: (k, False, 0)))(k)) for k in (1, 2, 3)]
+            picks.append(("long0", lambda what: (0, True, 0)))
+            picks.append(("qtyzeros", lambda what: (0, False, rng.range(1, 3) if what == "qty" else 0)))
+            for i in range(3 if tier == "quick" else 8):
+                picks.append(("mix", lambda what: (rng.below(4), rng.chance(1, 2), rng.below(3) if what == "qty" else 0)))
+            seen = {b0}
+            for lab, pk in picks:
+                e = U.OerVar(pk)
+                b = e.enc(tree, val)
+                if b in seen:
+                    continue
+                seen.add(b)
+                lines.append("dec %s oer %s" % (c["tn"], b.hex()))
+                meta.append((c, lab, b, getattr(e, "long_qty", False)))
+        out = run_mod(run, m, lines, "C03-oer")
+        rcm, mout, merr = run_lines(model, ["oerdec %s %s" % (c["ts"], b.hex()) for (c, lab, b, lq) in meta], timeout=1200)
+        for (c, lab, b, lq), l, o, mo in zip(meta, lines, out, mout):
+            run.case(l)
+            run.count("oer_" + lab)
+            exp = "OK %d %s ck=" % (len(b), c["der"])
+            replay = {"module": m["text"], "type": c["tn"], "model_type": c["ts"], "value": c["vs"], "variant_kind": lab, "command_line": l,
+                      "c": o, "expected": exp, "model": mo, "canonical_oer": c["oer"]}
+            if mo != "OK %d %s" % (len(b), c["vs"]) and not lq:
+                # (the reference decoder reads a quantity's length as one octet: undefined on long-form quantity lengths)
+                run.violation("model:Oer.oer_dec", dict(replay, what="the reference OER decoder does not return the value on a variant"), no_input=True)
+            if not o.startswith(exp):
+                run.violation("oracle:oer_complete", dict(replay, what="the C OER decoder does not return OK / full length / the value on a valid encoding"))
+        if meta:
+            run.sample({"type": meta[-1][0]["ts"], "oer": meta[-1][0]["oer"][:60], "variant": meta[-1][2].hex()[:80]})
+
+
+def xer_part(run, mods, cases, rng, tier):
+    """oracle on the C alone: layout variants of the C's own BASIC-XER and CANONICAL-XER output decode to the same value"""
+    bm = by_module(cases)
+    for m in mods:
+        if not m.get("exe"):
+            continue
+        cs = [c for c in bm.get(m["name"], []) if len(c["der"]) <= 4000]
+        if tier == "quick":
+            cs = cs[:14]
+        l1 = []
+        for c in cs:
+            for syn in ("xer", "cxer"):
+                l1.append(("xcode %s der %s %s" % (c["tn"], c["der"], syn), c, syn))
+        o1 = run_mod(run, m, [x[0] for x in l1], "C03-xer-enc")
+        lines, meta = [], []
+        for (l, c, syn), o in zip(l1, o1):
+            if not o.startswith("OK "):
+                run.violation("oracle:xer_encode", {"what": "XER encoding of a valid value failed", "module": m["text"], "command_line": l, "c": o})
+                continue
+            text = bytes.fromhex(o.split()[1]).decode("utf-8")
+            seen = set()
+            for mode in ("ws", "comment", "empty", "mix", "mix"):
+                v = U.xer_variant(text, rng, mode)
+                if v in seen or v == text:
+                    continue
+                seen.add(v)
+                lines.append("dec %s xer %s" % (c["tn"], v.encode("utf-8").hex()))
+                meta.append((c, syn, mode, text, v))
+        out = run_mod(run, m, lines, "C03-xer")
+        for (c, syn, mode, text, v), l, o in zip(meta, lines, out):
+            run.case(l)
+            run.count("xer_%s_%s" % (syn, mode))
+            exp = "OK %d %s ck=" % (len(v.encode("utf-8")), c["der"])
+            if not o.startswith(exp) and o.startswith("FAIL ") and U.xer_ws_before_boolean(v):
+                run.known_finding("C03-xer-boolean-leading-whitespace", l)
+                run.count("xer_ws_before_boolean")
+            elif not o.startswith(exp):
+                run.violation("oracle:xer_complete", {"what": "the C XER decoder does not return OK / full length / the value on a layout variant of its own output",
+                                                      "module": m["text"], "type": c["tn"], "value": c["vs"], "layout": syn, "variant_kind": mode,
+                                                      "c_output": text, "variant": v, "command_line": l, "c": o, "expected": exp})
+        if meta:
+            run.sample({"xer": meta[-1][3][:100], "variant": meta[-1][4][:140]})
+
+
 def main(tier):
     run = Run("C03", tier)
     rng = Rng(run.seed)
@@ -175,6 +309,9 @@ def main(tier):
             run.violation("build:module", {"what": "a valid generated module was rejected or its code does not compile", "module": m["text"],
                                            "asn1c_out": m.get("asn1c_out", "")[-1200:], "build_log": m.get("build_log", "")[-1200:]})
     ber_part(run, model, mods, cases, rng, tier)
+    uper_part(run, model, mods, cases, rng, tier)
+    oer_part(run, model, mods, cases, rng, tier)
+    xer_part(run, mods, cases, rng, tier)
     tb = ["Coq 8.16.1 kernel", "axioms under Print Assumptions: " + (", ".join(sorted(axioms)) or "none (Closed under the global context)"),
           "extraction: ExtrOcamlBasic only; OCaml 4.13.1", "lib/c03_util.py (independent variant generators), lib/modgen.py, harness/moddrv.c, gcc + ASan/UBSan"]
     return run.finish("proof", (nthm, ndis), trusted_base=tb,
